@@ -56,6 +56,13 @@ let exec toks =
           s_n (get_rank_flag w); s_n (get_suit_bit w); s_n (get_suit_flag w); s_n (get_rank_char w);
           s_n (get_suit_char w); s_n (get_suit_letter w); s_b (is_blank w); s_n (get_chen_points_x2 w);
           s_n (next_suit w); s_n w ]
+  | "accf" ->
+      let w = List.hd (nums ()) in
+      String.concat " "
+        [ s_n (get_card_rank w); s_n (get_card_suit w); s_n (get_rank_prime w); s_n (get_rank_bit w);
+          s_n (get_rank_flag w); s_n (get_suit_bit w); s_n (get_suit_flag w); s_n (get_rank_char w);
+          s_n (get_suit_char w); s_n (get_suit_letter w); s_b (is_blank w); s_n w ]
+  | "accp" -> s_n (get_chen_points_x2 (List.hd (nums ())))
   | "flags" ->
       let w = List.hd (nums ()) in
       String.concat " "
